@@ -45,6 +45,7 @@ func coreC19(tier string) []RunSpec {
 		out = append(out, RunSpec{Profile: "core:pending-across-rotation-reclaim", Params: map[string]int{"scenario": 5, "fee": 0, "k": k}})
 	}
 	// everything spent, then restore, continue, restore
+	out = append(out, RunSpec{Profile: "core:refused-receives-then-restore", Params: map[string]int{"scenario": 6, "fee": 0}})
 	out = append(out, RunSpec{Profile: "core:spend-all-restore", Params: map[string]int{"scenario": 4, "fee": 0}})
 	out = append(out, RunSpec{Profile: "core:melt-all-restore", Params: map[string]int{"scenario": 4, "melt": 1, "fee": 0}})
 	// known finding: SIG_ALL token from an untrusted mint, swap-to-trusted fails, received again
@@ -90,6 +91,47 @@ func runC19(rc *RunCtx) {
 		return
 	case 2:
 		c19ManyOutputs(ww, rc.P("rot", 0) == 1)
+		return
+	case 6:
+		// a long run of receives the mint refuses (the token was redeemed before), then ordinary use, then
+		// a restore from the seed: operations that obtained nothing must not move the seed's outputs out
+		// of reach of the restore scan
+		a, b := ww.Wallets[0], ww.Wallets[1]
+		mint := mintNameOfURL(ww.node(a).Mint)
+		ww.step = 0
+		ww.rc.S.MaxSteps += 60000
+		ww.mintInto(a, 32767)
+		var tokStr string
+		ww.op("w.send fees=false")
+		ww.W.WalletOp(a, ww.name("send."+a), nil, func(wl *wallet.Wallet) {
+			if ps, e := wl.Send(32767, ww.mintURL(mint), false); e == nil {
+				tokStr, _ = MakeToken(ps, ww.mintURL(mint), false, false)
+			}
+		})
+		if tokStr == "" {
+			return
+		}
+		recv := func(label string) {
+			ww.op(label)
+			ww.W.WalletOp(b, ww.name("recv."+b), nil, func(wl *wallet.Wallet) {
+				if tk, e := cashu.DecodeToken(tokStr); e == nil {
+					wl.Receive(tk, false)
+				}
+			})
+		}
+		recv("w.receive plain sigall=false crossmint=false")
+		for i := 0; i < 28; i++ {
+			ww.step++
+			recv("w.receive(again, refused)")
+		}
+		checked = ww.CheckCounters(checked)
+		ww.mintInto(b, 64)
+		ww.mintInto(b, 37)
+		checked = ww.CheckCounters(checked)
+		ww.Settle()
+		ww.restoreWallet(b, false, "after refused receives")
+		ww.rc.S.Probe("c19_refused_receives_then_restore")
+		ww.rc.Nontrivial = true
 		return
 	case 5:
 		// proofs stay pending (a melt in flight) while the mint rotates its keyset; the payment fails,
